@@ -147,6 +147,18 @@ class C03(PureCheck):
                 if k % 2 == 0:
                     # the same with the Input's context entered for each request and left again (on a pty)
                     yield {"op": "pipe", "items": [list(x) for x in items], "enc": enc, "pieces": pieces, "ctx": 1}
+        # control bytes as data (the interrupt, quit, suspend, stop / start and end-of-file characters of a tty arrive as plain
+        # bytes when the terminal is in raw mode or the bytes come through unget_bytes) - with every Input option that
+        # concerns them: sigint_event on and off
+        ctl = [b"\x03", b"\x1c", b"\x1a", b"\x13", b"\x11", b"\x04", b"\x00", b"\x7f"]
+        for enc in encs:
+            for k, c in enumerate(ctl):
+                for sig in (0, 1):
+                    yield {"op": "pipe", "items": [[97], list(c), [98]], "enc": enc, "sigint": sig}
+                    yield {"op": "pipe", "items": [list(c)], "enc": enc, "sigint": sig}
+                    yield {"op": "pipe", "items": [[27] + list(c), [122]], "enc": enc, "sigint": sig}
+                    yield {"op": "pipe", "items": [[97 + j % 26] for j in range(6)] + [list(c)] + [[65 + j % 26] for j in range(6)], "enc": enc, "sigint": sig}
+                    yield {"op": "pipe", "items": [[120], list(c), [121], list(c)], "enc": enc, "pieces": [1, 2, 1], "sigint": sig}
         # scalar values
         cps = [0x20, 0x7E, 0x7F, 0x80, 0x7FF, 0x800, 0xFFF, 0x1000, 0xD7FF, 0xE000, 0xFFFD, 0xFFFF, 0x10000, 0x3FFFF, 0x40000, 0xFFFFF, 0x100000, 0x10FFFF]
         if tier == "quick":
@@ -175,9 +187,9 @@ class C03(PureCheck):
         if inp["op"] == "pipe":
             ev = dict(inp)
             if inp.get("pieces"):
-                ev.update(keylib.run_unget(T, [bytes(x) for x in inp["items"]], inp["pieces"], inp["enc"], self.pipe, ctx=bool(inp.get("ctx"))))
+                ev.update(keylib.run_unget(T, [bytes(x) for x in inp["items"]], inp["pieces"], inp["enc"], self.pipe, ctx=bool(inp.get("ctx")), sigint=bool(inp.get("sigint"))))
             else:
-                ev.update(keylib.run_pipe(T, [bytes(x) for x in inp["items"]], inp["enc"], self.pipe, highfd=bool(inp.get("highfd"))))
+                ev.update(keylib.run_pipe(T, [bytes(x) for x in inp["items"]], inp["enc"], self.pipe, highfd=bool(inp.get("highfd")), sigint=bool(inp.get("sigint"))))
             return ev
         if inp["op"] == "stream":
             ev = dict(inp)
